@@ -12,6 +12,7 @@
    they executed, in order.  No proofs in this file. *)
 From Coq Require Import List Bool Arith.
 Import ListNotations.
+From ZI Require Import Lib.Util.
 
 (* ------------------------------------------------------------------ behaviours (inputs) *)
 
@@ -365,6 +366,78 @@ Definition c_call (k : kls) (o : obj) : list ev * outcome :=
           let (lg, a) := if k_flag_own k then c_adapt k o else c_default_adapt k o in
           finish o (EvGetConform :: EvCallConform :: lg) a
       end
+  end.
+
+(* ------------------------------------------------------------------ interface DAGs *)
+
+(* An interface definition in a DAG of interfaces (nodes in creation order, bases by index; no base
+   = Interface).  How it is created decides its class:
+     HClass     `class I(B1, ..., Bn): ...`  Python first picks the metaclass: the most derived of
+                type(B1) ... type(Bn) (TypeError "metaclass conflict" if none derives from all the
+                others), then InterfaceClass.__new__(that class, ...) adds a custom-methods class
+                on top when the body has @interfacemethods
+     HCallIC    `InterfaceClass(name, (B1, ..., Bn), {})`: the class is InterfaceClass itself, whatever
+                the bases' classes are: a custom __adapt__ of a base is NOT inherited
+     HCallType  `type(B1)(name, (B1, ..., Bn), {})`: the class of the first base
+   Which custom __adapt__ / providedBy an interface runs therefore follows the metaclass line, not
+   the order of its __bases__.  A class is identified by its line: the nodes whose definition
+   created a class on its MRO, nearest first. *)
+Inductive how := HClass | HCallIC | HCallType.
+Record node := mkNode {
+  n_bases : list nat; n_how : how; n_adapt : option cbeh; n_prov : option pbeh; n_other : bool
+}.
+
+Definition node_has_methods (nd : node) : bool :=
+  is_some (n_adapt nd) || is_some (n_prov nd) || n_other nd.
+
+(* [a] is a suffix of [b]: the class with line [b] derives from (or is) the class with line [a] *)
+Definition derives_from (b a : list nat) : bool :=
+  Nat.leb (length a) (length b) && lnat_eqb a (skipn (length b - length a) b).
+
+(* the most derived of the bases' classes; None = metaclass conflict *)
+Definition winner (lines : list (list nat)) : option (list nat) :=
+  find (fun w => forallb (fun x => derives_from w x) lines) lines.
+
+(* the line of the class of node [i], given the lines of the earlier nodes (None = its creation failed) *)
+Definition node_line (acc : list (option (list nat))) (i : nat) (nd : node) : option (list nat) :=
+  let blines := match n_bases nd with
+                | [] => [Some []]                        (* Interface: InterfaceClass *)
+                | bs => map (fun b => nth b acc None) bs
+                end in
+  if forallb is_some blines then
+    let ls := flat_map (fun x => match x with Some l => [l] | None => [] end) blines in
+    match n_how nd with
+    | HCallIC => Some []
+    | HCallType => Some (hd [] ls)
+    | HClass =>
+        match winner ls with
+        | None => None
+        | Some w => Some (if node_has_methods nd then i :: w else w)
+        end
+    end
+  else None.
+
+Fixpoint dag_lines (acc : list (option (list nat))) (nodes : list node) : list (option (list nat)) :=
+  match nodes with
+  | [] => acc
+  | nd :: t => dag_lines (acc ++ [node_line acc (length acc) nd]) t
+  end.
+
+(* creating the last interface of the DAG fails (metaclass conflict somewhere on the way) *)
+Definition dag_conflict (nodes : list node) : bool :=
+  match last (dag_lines [] nodes) None with Some _ => false | None => true end.
+
+(* The DAG seen from its last interface, as an equivalent single-inheritance chain with the same
+   level numbers: the nodes on the line of its class keep their definitions, every other node
+   becomes an empty level (`class I_k(I_{k-1}): pass`, which creates no class). *)
+Definition dag_line (nodes : list node) : list lvl :=
+  match last (dag_lines [] nodes) None with
+  | Some l =>
+      map (fun p => if mem_nat (fst p) l
+                    then mkLvl (n_adapt (snd p)) (n_prov (snd p)) (n_other (snd p)) false
+                    else mkLvl None None false false)
+          (combine (seq 0 (length nodes)) nodes)
+  | None => []
   end.
 
 (* ------------------------------------------------------------------ decidable equalities (for the tie) *)
